@@ -11,6 +11,7 @@ use crate::asm::arcob::Arcob;
 use crate::asm::{ConstantError, Context, ErrorLevel, SegmentError};
 use crate::asm::constant::Realm;
 use crate::asm::instr::{InstrErrorKind, InstructionError, InstructionSet};
+use crate::asm::memory::map::Search;
 use crate::asm::simplify::{EvalError, evaluate, Evaluation};
 use crate::text::{PosNamed, Positioned};
 use crate::text::parse::{Argument, ArgumentType};
@@ -934,6 +935,9 @@ impl<'l> ArmInstr<'l>
 				{
 					tmp.fill(0xBE); // BKPT 0xBE;
 				}
+				// a placed statement whose region has been closed lives in the output map, even if
+				// the active region now ends exactly at its address
+				let closed = self.placed && ctx.output().find(self.addr, Search::Exact).is_some();
 				match ctx.active_mut()
 				{
 					Some(active) if !self.placed =>
@@ -946,7 +950,7 @@ impl<'l> ArmInstr<'l>
 						}
 						self.placed = true;
 					},
-					Some(active) if self.addr >= active.base_addr() && self.addr <= active.curr_addr() =>
+					Some(active) if !closed && self.addr >= active.base_addr() && self.addr <= active.curr_addr() =>
 					{
 						if let Err(e) = active.write_at(self.addr, &tmp[..len])
 						{
